@@ -19,7 +19,7 @@ Definition this_of (s:sstate) : rvalue := match lookup_scopes "_this" (st_scopes
 
 Inductive xev : sstate -> expr -> rvalue -> sstate -> Prop :=
 | XPure s e v : pev (loc_of s) (glob_of s) e v -> xev s e v s
-| XVarL s n v : is_local n = true -> loc_of s (lower n) = Some v -> nonnil v -> xev s (EVar n) v s
+| XVarL s n v : is_local n = true -> hidden (lower n) = false -> loc_of s (lower n) = Some v -> nonnil v -> xev s (EVar n) v s
 | XVarG s n v : is_local n = false -> glob_of s (lower n) = Some v -> nonnil v -> xev s (EVar n) v s
 | XCode s b : xev s (ECode b) (RCode b) s
 | XArr s l vs s' : xevs s l vs s' -> xev s (EArr l) (RArr vs) s'
@@ -42,7 +42,7 @@ with xevs : sstate -> list expr -> list rvalue -> sstate -> Prop :=
 | XCons s e v s1 l vs s2 : xev s e v s1 -> nonnil v -> xevs s1 l vs s2 -> xevs s (e :: l) (v :: vs) s2
 with xstmt : sstate -> rvalue -> stmt -> rvalue -> sstate -> Prop :=
 | XSExprV s reg e v s1 : xev s e v s1 -> xstmt s reg (SExpr e) v s1
-| XSAssign s reg n e v s1 : n <> "" -> xev s e v s1 -> nonnil v ->
+| XSAssign s reg n e v s1 : n <> "" -> hidden (lower n) = false -> xev s e v s1 -> nonnil v ->
     xstmt s reg (SAssign n e) reg (if is_local n then assign_local s1 n v else rns_set s1 (cur_ns_of s1) n v)
 | XSLocal s reg n e v s1 : n <> "" -> xev s e v s1 -> nonnil v -> xstmt s reg (SLocal n e) reg (bind_here s1 n v)
 with xblock : sstate -> rvalue -> list stmt -> rvalue -> sstate -> Prop :=
@@ -256,12 +256,12 @@ Qed.
 (* the two assignment instructions, with the value on top of the stack *)
 Lemma assign_run s1 r1 c1 f1 rest1 pre post n v vals :
   Mach s1 r1 c1 f1 rest1 -> f_code f1 = pre ++ IAssign n :: post -> f_pos f1 = length pre ->
-  c_values c1 = cv v :: vals -> f_base f1 <= length vals -> n <> "" -> nonnil v ->
+  c_values c1 = cv v :: vals -> f_base f1 <= length vals -> n <> "" -> hidden (lower n) = false -> nonnil v ->
   exists r' c' f' rest', Steps r1 r' /\
      Mach (if is_local n then assign_local s1 n v else rns_set s1 (cur_ns_of s1) n v) r' c' f' rest' /\
      c_values c' = vals /\ moved f1 f' /\ f_pos f' = S (f_pos f1) /\ Forall2 kept rest1 rest'.
 Proof.
-  intros (G1 & EF1 & M & B1 & D1) EC EP EV B NN NV0. pose proof (nonnil_cv _ NV0) as NV.
+  intros (G1 & EF1 & M & B1 & D1) EC EP EV B NN HH NV0. pose proof (nonnil_cv _ NV0) as NV.
   assert (N1 : nth_error (f_code f1) (f_pos f1) = Some (IAssign n)) by (rewrite EC, EP; apply nth_error_mid).
   set (c1' := set_frames c1 (set_pos f1 (S (f_pos f1)) :: rest1)).
   assert (P : pop_value c1' = Some (cv v, set_values c1' vals)).
@@ -277,7 +277,7 @@ Proof.
     destruct (run_one r1 c1 f1 rest1 (IAssign n) _ G1 EF1 N1 EX) as [S2 G2].
     { unfold assign_local_var. destruct (assign_frames _ _ _); unfold upd_top; cbn; try exact SU. }
     unfold assign_local. rewrite <- E1.
-    destruct (assign_match (lower n) v _ _ F2) as [(scs' & fs' & A1 & A2 & M' & K)|[A1 A2]].
+    destruct (assign_match (lower n) v HH _ _ F2) as [(scs' & fs' & A1 & A2 & M' & K)|[A1 A2]].
     + unfold assign_local_var in *. rewrite A2 in *. rewrite A1.
       cbn [c_frames c2 set_values c1' set_frames] in K. inversion K as [|fa fb ra rb K1 K2 Ea Eb]; subst.
       inversion M' as [|sc' fb' scs'' rb' FM' F'' Ea' Eb']; subst.
@@ -377,9 +377,9 @@ Proof.
     + split; [apply good_adv; exact G|]. split; [reflexivity|]. split; [apply match_upd, match_set_pos; exact M|].
       split; [cbn; lia|rewrite quirks_upd_cur; exact D].
     + split; [reflexivity|]. split; [apply moved_set_pos|]. split; [reflexivity|apply kept_all_refl].
-  - (* local variable *) intros s n v IL HL NN r c f rest pre post MA EC EP. cbn [compile_expr app length] in *.
+  - (* local variable *) intros s n v IL HH HL NN r c f rest pre post MA EC EP. cbn [compile_expr app length] in *.
     eapply push_post; eauto. intros c1 F1. cbn [exec_instr]. rewrite IL. unfold get_variable. rewrite F1.
-    rewrite lookup_frames_set_pos. destruct MA as (_ & _ & [F _] & _). rewrite (lookup_match _ _ _ F). unfold loc_of in HL. rewrite HL. reflexivity.
+    rewrite lookup_frames_set_pos. destruct MA as (_ & _ & [F _] & _). rewrite (lookup_match _ HH _ _ F). unfold loc_of in HL. rewrite HL. reflexivity.
   - (* global variable *) intros s n v IL HL NN r c f rest pre post MA EC EP. cbn [compile_expr app length] in *.
     eapply push_post; eauto. intros c1 F1. cbn [exec_instr]. rewrite IL, F1. unfold ns_get. cbn [f_ns set_pos].
     destruct MA as (_ & _ & MM & _). destruct (env_ok_of s r f rest MM) as [_ EG]. rewrite (EG _ _ HL). reflexivity.
@@ -443,7 +443,7 @@ Proof.
     set (c0 := set_values (set_frames c1 (set_pos f1 (S (f_pos f1)) :: rest1)) (c_values c)).
     assert (TH : match get_variable c0 "_this" with Some t => t | None => VNil end = cv (this_of s1)).
     { unfold get_variable. cbn [c_frames c0 set_values set_frames]. rewrite lookup_frames_set_pos.
-      destruct MM1 as [F1 _]. rewrite (lookup_match _ _ _ F1). unfold this_of.
+      destruct MM1 as [F1 _]. rewrite (lookup_match (lower "_this") eq_refl _ _ F1). unfold this_of.
       change (lower "_this") with "_this". destruct (lookup_scopes "_this" (st_scopes s1)); reflexivity. }
     destruct (unary_run r1 c1 f1 rest1 _ _ (lower n) (cv (RCode b)) (c_values c)
                 (push_frame c0 (mk_frame (cur_ns c0) (compile_block b) None None (mvars [("_this", this_of s1)]))) VNil G1 EF1 EC1 EP1 EV1) as [S2 G2].
@@ -583,13 +583,13 @@ Proof.
     exists r1, c1, f1, rest1. split; [exact S1|]. split; [|split; [exact MV1|split; [exact P1|exact K1]]].
     split; [exact M1|]. split; [rewrite (moved_base _ _ MV1); exact LB|]. exists (cv v :: top). split; [rewrite EV1, EV; reflexivity|].
     split; [reflexivity|]. split; [exact (xev_not_none _ _ _ _ HE)|exact (fresh_under c top below EV FR)].
-  - (* statement: x = e *) intros s reg n e v s1 NN HE IHe NV r c f rest below pre post (MA & LB & top & EV & RR) FR EC EP.
+  - (* statement: x = e *) intros s reg n e v s1 NN HH HE IHe NV r c f rest below pre post (MA & LB & top & EV & RR) FR EC EP.
     cbn [compile_stmt] in *. rewrite app_length. cbn [length]. rewrite <- app_assoc in EC.
     post_intro (IHe r c f rest pre ([IAssign n] ++ post) MA EC EP) r1 c1 f1 rest1 S1 M1 EV1 MV1 P1 K1.
     destruct (after_operands_code f f1 pre _ _ MV1 EC EP P1) as [EC1 EP1].
     destruct MA as (_ & _ & _ & B & _).
     destruct (assign_run s1 r1 c1 f1 rest1 _ _ n v (c_values c) M1 EC1 EP1 EV1) as (r2 & c2 & f2 & rest2 & S2 & M2 & EV2 & MV2 & P2 & K2).
-    { rewrite (moved_base _ _ MV1); exact B. } { exact NN. } { exact NV. }
+    { rewrite (moved_base _ _ MV1); exact B. } { exact NN. } { exact HH. } { exact NV. }
     exists r2, c2, f2, rest2. split; [eapply steps_trans; eassumption|]. split.
     + split; [exact M2|]. split; [rewrite (moved_base _ _ MV2), (moved_base _ _ MV1); exact LB|]. exists top. split; [rewrite EV2; exact EV|exact RR].
     + split; [eapply moved_trans; eassumption|]. split; [rewrite P2, P1; lia|eapply kept_all_trans; eassumption].
@@ -720,7 +720,7 @@ Theorem ref_runs :
 Proof.
   apply x_ind.
   - (* pure *) intros s e v HE. exists (esize e). intros f L. exact (proj2 (proj1 (pure_ref _ _) e v HE) s f (renv_ok_of s) L).
-  - (* local *) intros s n v IL HL NN. exists 1. intros [|f] L; [lia|]. cbn [eval]. rewrite IL. unfold loc_of in HL. rewrite HL. reflexivity.
+  - (* local *) intros s n v IL HH HL NN. exists 1. intros [|f] L; [lia|]. cbn [eval]. rewrite IL. unfold loc_of in HL. rewrite HL. reflexivity.
   - (* global *) intros s n v IL HL NN. exists 1. intros [|f] L; [lia|]. cbn [eval]. rewrite IL. unfold rns_get. unfold glob_of in HL. rewrite HL. reflexivity.
   - (* code *) intros s b. exists 1. intros [|f] L; [lia|]. reflexivity.
   - (* array *) intros s l vs s' HL [f0 IH]. exists (S f0). intros [|f] L; [lia|]. rewrite eval_S_arr. rewrite (IH f) by lia. reflexivity.
@@ -780,7 +780,7 @@ Proof.
     + rewrite (IHl f) by lia. cbn [rev]. rewrite <- app_assoc. reflexivity.
   - (* expression statement *) intros s reg e v s1 HE [fe IHe]. exists fe. intros f L rest. cbn [eval_block]. rewrite (IHe f L).
     pose proof (xev_not_none _ _ _ _ HE) as NN. unfold cont. destruct v; try contradiction; reflexivity.
-  - (* assignment *) intros s reg n e v s1 NN HE [fe IHe] NV. exists fe. intros f L rest. cbn [eval_block]. rewrite (IHe f L).
+  - (* assignment *) intros s reg n e v s1 NN HH HE [fe IHe] NV. exists fe. intros f L rest. cbn [eval_block]. rewrite (IHe f L).
     destruct NV as [A1 A2]. unfold cont. destruct v; try contradiction; reflexivity.
   - (* private *) intros s reg n e v s1 NN HE [fe IHe] NV. exists fe. intros f L rest. cbn [eval_block]. rewrite (IHe f L).
     destruct NV as [A1 A2]. unfold cont. destruct v; try contradiction; reflexivity.
